@@ -735,7 +735,7 @@ func outcomeClass(im string) string {
 func genEvent(o *Out, tier string, r *Rng) {
 	n := 10
 	if tier == "thorough" {
-		n = 400
+		n = 300
 	}
 	// the regression corpus shapes come first
 	for _, ver := range []string{"1", "4", "12"} {
@@ -971,37 +971,9 @@ func genRedactPDU(o *Out, tier string, r *Rng) {
 			if r.Chance(5) {
 				ev.put("content", Pick(r, []*JV{{Kind: 'a'}, jstr("x"), {Kind: 'n'}}))
 			}
-			// extra top-level members, in particular an event_id member in every format (trusted JSON from a database
-			// may carry one): Redact() must keep / drop them exactly as RedactEventJSON does
-			objContent := true
-			if c := ev.get("content"); c == nil || c.Kind != 'o' {
-				objContent = false
-			}
-			if r.Chance(50) && !ev.has("event_id") {
-				ev.put("event_id", jstr("$hand:hs1"))
-			}
-			for k := r.Intn(3); k > 0; k-- {
-				// (exact-case keys only: case variants of protected keys are outside the property's quantifier, see C04)
-				key := Pick(r, redactTopKeys)
-				if !ev.has(key) && key != "" && strings.ToLower(key) == key && !strings.Contains(key, "ſ") {
-					ev.put(key, r.contentValue(key, true))
-				}
-			}
 			t := r.RenderText(ev, Style{})
 			im := o.Do("pdu", hv, hx([]byte("$hand:hs1"))+":"+hx(t))
 			o.Count("pdu.handmade." + pduClass(im))
-			if objContent && strings.Contains(im, "##idem=") {
-				sg := signers[0]
-				pub := sg.sk.Public().(ed25519.PublicKey)
-				// the ID a trusted constructor WITHOUT a caller-supplied ID gives (hashed-ID formats: the reference hash;
-				// a made-up ID would not survive Redact()'s recomputation and says nothing about the property)
-				id := "$hand:hs1"
-				if pv, err := gmsl.MustGetRoomVersion(gmsl.RoomVersion(ver)).NewEventFromTrustedJSON(t, false); err == nil {
-					id = pv.EventID()
-				}
-				im = o.Do("pdu_props", hv, hx([]byte(id))+":"+hx(t), hx([]byte(sg.name)), hx([]byte(sg.kid)), hx(pub))
-				o.Count("pdu_props.handmade." + im)
-			}
 		}
 	}
 }
